@@ -1,5 +1,6 @@
 import SFV.Lemmas.Sh
 import SFV.Lemmas.FS
+import SFV.Model.FSL
 import SFV.Model.ShellRun
 import SFV.Gen.CmdTemplates
 /-! # C24 — remote path operations agree with the local filesystem
@@ -200,5 +201,147 @@ theorem read_text_full_false :
     remoteReadText (fun q => if q = ["f"] then some (.file ['x', '\n']) else none) ["f"]
       ≠ localReadText (fun q => if q = ["f"] then some (.file ['x', '\n']) else none) ["f"] := by
   decide
+
+/-! ### links, modes, sizes: `SFV/Model/FSL.lean`
+
+`symlink_to`, `hardlink_to`, `chmod`, `size`, `checksum` and the `is_*` tests on symbolic links, over a file-system model with
+links (absolute targets), file modes and a finite entry listing. Utility behaviour is assumed; proved is how the command logic of
+`RemoteStreamFlowPath` relates to the local API, with the exact side condition under which they agree and a witness outside it. -/
+open SFV.FSL
+
+/-- for anything that is not a symbolic link, `stat` and `lstat` agree -/
+theorem stat_of_not_link (fs : FSL.FS) (q : FSL.Path) (h : isLink fs q = false) : stat fs q = lstat fs q := by
+  unfold stat lstat
+  have : FUEL = 39 + 1 := rfl
+  rw [this]
+  unfold isLink lstat at h
+  simp only [resolve]
+  cases hq : fs q with
+  | none => simp
+  | some n =>
+    cases n with
+    | link t n => simp [hq] at h
+    | dir => simp [hq]
+    | file c m => simp [hq]
+
+/-- `exists` / `is_file` / `is_dir` / `is_symlink` in the presence of links: `test -e`, `-f`, `-d` follow links like `os.stat`,
+    `test -L` looks at the link itself like `os.lstat` -/
+theorem link_tests_refine_local (fs : FSL.FS) (p : FSL.Path) :
+    testE fs p = localExists fs p ∧ testF fs p = localIsFile fs p ∧ testD fs p = localIsDir fs p ∧ testL fs p = localIsSymlink fs p :=
+  ⟨rfl, rfl, rfl, rfl⟩
+
+/-- a dangling link: `exists` is false on both sides, `is_symlink` true on both sides -/
+example : testE (fun q => if q = ["l"] then some (.link ["missing"] 7) else if q = [] then some .dir else none) ["l"] = false ∧
+    testL (fun q => if q = ["l"] then some (.link ["missing"] 7) else if q = [] then some .dir else none) ["l"] = true := by decide
+
+/-- **`symlink_to` agrees with the local API when nothing is at the destination** (what is missing for the full statement:
+    `ln -snf` replaces an existing file or link and creates the link *inside* an existing directory, `os.symlink` refuses both) -/
+theorem symlink_to_refines_local_partial (fs : FSL.FS) (p target : FSL.Path) (tlen : Nat) (base : String) (h : lstat fs p = none) :
+    remoteSymlink fs p target tlen base = localSymlink fs p target tlen := by
+  unfold remoteSymlink localSymlink isDirL
+  simp [h]
+
+/-- a root directory with a file `f` and a directory `d` -/
+def fs1 : FSL.FS := fun q =>
+  if q = [] then some .dir else if q = ["f"] then some (.file ['a', 'b', 'c'] 0o644) else if q = ["d"] then some .dir else none
+
+theorem symlink_to_existing_file_false :
+    localSymlink fs1 ["f"] ["d"] 1 = none ∧ (remoteSymlink fs1 ["f"] ["d"] 1 "d").isSome = true := by decide
+
+theorem symlink_to_existing_dir_false :
+    localSymlink fs1 ["d"] ["f"] 1 = none ∧
+    (remoteSymlink fs1 ["d"] ["f"] 1 "f").map (fun fs => fs ["d", "f"]) = some (some (.link ["f"] 1)) := by decide
+
+/-- non-vacuity: a fresh name in an existing directory -/
+example : remoteSymlink fs1 ["d", "new"] ["f"] 4 "f" = localSymlink fs1 ["d", "new"] ["f"] 4 ∧
+    (localSymlink fs1 ["d", "new"] ["f"] 4).isSome = true :=
+  ⟨symlink_to_refines_local_partial fs1 _ _ _ _ (by decide), by decide⟩
+
+/-- **`hardlink_to` agrees with the local API when nothing is at the destination** (a regular file or a symbolic link as target:
+    both sides link the entry itself; anything else is an error on both sides) -/
+theorem hardlink_to_refines_local_partial (fs : FSL.FS) (p target : FSL.Path) (base : String) (h : lstat fs p = none) :
+    remoteHardlink fs p target base = localHardlink fs p target := by
+  unfold remoteHardlink localHardlink isDirL
+  cases hl : linkable (lstat fs target) with
+  | none => rfl
+  | some nd =>
+    have hne : (p == target) = false := by
+      cases hpt : (p == target) with
+      | false => rfl
+      | true =>
+        have : p = target := by simpa using hpt
+        subst this
+        simp [h, linkable] at hl
+    simp [h, hne]
+
+theorem hardlink_to_existing_false :
+    localHardlink fs1 ["d"] ["f"] = none ∧ (remoteHardlink fs1 ["d"] ["f"] "f").isSome = true := by decide
+
+example : (localHardlink fs1 ["g"] ["f"]).map (fun fs => fs ["g"]) = some (some (.file ['a', 'b', 'c'] 0o644)) := by decide
+
+/-- **`chmod` agrees with the local API when links are followed** (the default) -/
+theorem chmod_refines_local_partial (fs : FSL.FS) (p : FSL.Path) (mode : Nat) :
+    remoteChmod fs p mode true = localChmod fs p mode true := rfl
+
+/-- `chmod(follow_symlinks=False)`: fine locally on a regular file, always an error remotely (`chmod -h`) -/
+theorem chmod_nofollow_false :
+    (localChmod fs1 ["f"] 0o600 false).isSome = true ∧ remoteChmod fs1 ["f"] 0o600 false = none := by decide
+
+example : (remoteChmod fs1 ["f"] 0o755 true).map (fun fs => fs ["f"]) = some (some (.file ['a', 'b', 'c'] 0o755)) := by decide
+
+/-- **`size` agrees with the local API on trees without symbolic links** (`find -L` follows links, the local walk skips them) -/
+theorem size_refines_local_partial (fs : FSL.FS) (dom : List FSL.Path) (p : FSL.Path)
+    (hnl : ∀ q, p <+: q → isLink fs q = false) : remoteSize fs dom p = localSize fs dom p := by
+  unfold remoteSize localSize
+  have hp := hnl p (List.prefix_refl p)
+  have hsym : localIsSymlink fs p = false := hp
+  have hf : testF fs p = localIsFile fs p := rfl
+  have hls : ∀ q, isLink fs q = false → lsSize fs q = fileSize (lstat fs q) := by
+    intro q hq
+    unfold lsSize
+    rw [stat_of_not_link fs q hq]
+    unfold isLink at hq
+    cases hl : lstat fs q with
+    | none => rfl
+    | some nd => cases nd <;> simp_all [fileSize]
+  rw [hf, hsym, hls p hp]
+  simp only [Bool.false_eq_true, if_false]
+  congr 2
+  apply List.map_congr_left
+  intro q hq
+  simp only [List.mem_filter, Bool.and_eq_true, decide_eq_true_eq] at hq
+  rw [hnl q hq.2.1, hls q (hnl q hq.2.1)]
+  simp
+
+/-- a directory `d` with a link `d/l` to the file `f` (3 bytes) -/
+def fs2 : FSL.FS := fun q =>
+  if q = [] then some .dir else if q = ["f"] then some (.file ['a', 'b', 'c'] 0o644) else if q = ["d"] then some .dir
+  else if q = ["d", "l"] then some (.link ["f"] 4) else none
+
+/-- with a link below the directory the two sides differ: 0 locally; remotely `find -L` selects the link and `ls -ln` adds the
+    length of its text (4 for `../f`) -/
+theorem size_with_link_false :
+    localSize fs2 [[], ["f"], ["d"], ["d", "l"]] ["d"] = 0 ∧ remoteSize fs2 [[], ["f"], ["d"], ["d", "l"]] ["d"] = 4 := by decide
+
+example : remoteSize fs1 [[], ["f"], ["d"]] [] = 3 ∧ localSize fs1 [[], ["f"], ["d"]] [] = 3 := by decide
+
+/-- **`checksum` agrees with the local API on regular files** (also through links); for anything else the local API answers
+    `None` and the remote side the empty string -/
+theorem checksum_refines_local_partial (h : List Char → List Char) (fs : FSL.FS) (p : FSL.Path) (hf : testF fs p = true) :
+    remoteChecksum h fs p = localChecksum h fs p := by
+  unfold remoteChecksum localChecksum
+  unfold testF at hf
+  cases hs : stat fs p with
+  | none => simp [hs] at hf
+  | some n => cases n <;> simp_all
+
+theorem checksum_non_file_false (h : List Char → List Char) :
+    localChecksum h fs1 ["d"] = none ∧ remoteChecksum h fs1 ["d"] = some [] := by
+  constructor <;> rfl
+
+example (h : List Char → List Char) : testF fs2 ["d", "l"] = true ∧ localChecksum h fs2 ["d", "l"] = some (h ['a', 'b', 'c']) := by
+  constructor
+  · decide
+  · rfl
 
 end SFV.C24
